@@ -30,19 +30,19 @@ pub trait ArrayLike: Any + Trace + Debug {
 #[derive(Debug, Trace)]
 pub struct SliceArray {
 	pub(crate) inner: ArrValue,
-	pub(crate) from: u32,
-	pub(crate) to: u32,
+	pub(crate) from: usize,
+	pub(crate) to: usize,
 	pub(crate) step: u32,
 }
 
 impl SliceArray {
 	fn map_idx(&self, index: usize) -> usize {
-		self.from as usize + self.step as usize * index
+		self.from + self.step as usize * index
 	}
 }
 impl ArrayLike for SliceArray {
 	fn len(&self) -> usize {
-		(self.to - self.from).div_ceil(self.step) as usize
+		(self.to - self.from).div_ceil(self.step as usize)
 	}
 
 	fn get(&self, index: usize) -> Result<Option<Val>> {
